@@ -8,9 +8,11 @@ CONSTANTS
   Residue <- MCResidue
   Sensitive <- MCSensitive
   Rewriters <- MCRewriters
+  HasImports <- MCHasImports
+  RebuildImports = TRUE
   ResetBuf = TRUE
   ResetScratch = TRUE
   InPlaceInfo = TRUE
   CopiesFirst = TRUE
   MaxHist = 12
-INVARIANTS TypeOK HistIndep InputsReadOnly BufEmptyAtBegin FileInPkg InfoIdentityStable
+INVARIANTS TypeOK HistIndep InputsReadOnly BufEmptyAtBegin FileInPkg InfoIdentityStable CtxImportsCurrent
